@@ -974,6 +974,10 @@ func main() {
 		isoPart(w, r)
 		return
 	}
+	if len(os.Args) > 2 && os.Args[2] == "anyelem" {
+		anyElemPart(w, r)
+		return
+	}
 	var cases []*tcase
 	rich := richSchema("c04")
 	rroot, rtypes := rich.Build("c04")
